@@ -109,7 +109,8 @@ def handle (op : String) (j : Json) : Except String Json := do
       ("wf", Json.bool (w.lists.all wfListB)),
       ("steps", listToJson (fun (p : MapW × Option Err) =>
           obj [("err", errToJson p.2), ("lists", listToJson tlistToJson p.1.lists)]) tr),
-      ("fresh", listToJson Json.bool (freshTrace w ops))]))
+      ("fresh", listToJson Json.bool (freshTrace w ops)),
+      ("latest", listToJson Json.bool (latestTrace w ops))]))
   | "c12.spec" =>
     -- the specification run: the same history, told which calls raised (observed on the implementation);
     -- `impl` = the implementation's lists after every call; the comparison is made here, on `Tbl`s
